@@ -1,6 +1,7 @@
 /-
   Property C18 — fresh secrets for every message; fail closed when randomness
-  fails.  Statements only; proofs in Saltpack/Proofs/Calls.lean.
+  fails.  Statements only; proofs in Saltpack/Proofs/Calls.lean and
+  Saltpack/Proofs/Fresh.lean.
 
   The process randomness source is a script of reads (`Rand.Source`); every
   sender model consumes a prefix of it and returns the rest.  The byte-exact
@@ -8,6 +9,7 @@
   read becomes which secret in the real code.
 -/
 import Saltpack.Proofs.Calls
+import Saltpack.Proofs.Fresh
 import Saltpack.Gen.Inventory
 import Saltpack.Toy
 
@@ -52,6 +54,32 @@ theorem C18_sign_draws (P : Prims) (bs : Nat) (v : Version) (signer : Bytes) (sr
     ∃ n, Rand.readFull Sign.sigNonceLen src = some (n, rest) ∧ Sign.attachedWith P bs v signer n msg = .ok m :=
   attachedRand_draws P bs v signer src msg m rest h
 
+/-- `SigncryptSeal`'s secrets are what the source delivered, in the order
+    shuffle draws (over box keys followed by symmetric keys) → ephemeral key →
+    payload key -/
+theorem C18_signcrypt_seal_draws (P : Prims) (bs : Nat) (sender : Option Bytes)
+    (boxes syms : List Signcrypt.Recipient) (eph : Encrypt.EphSource) (src : Rand.Source) (pt m : Bytes)
+    (rest : Rand.Source)
+    (h : Signcrypt.sealRand P bs sender boxes syms eph src pt = .ok (m, rest)) :
+    ∃ js src1 ephSec src2 pk,
+      Encrypt.shuffleDraws ((boxes ++ syms).length - 1) src (src.length + 1) = .ok (js, src1) ∧
+      (match eph with
+        | .given s => ephSec = s ∧ src2 = src1
+        | .fromRand => Rand.readFull 32 src1 = some (ephSec, src2)
+        | .fails => False) ∧
+      Rand.readFull 32 src2 = some (pk, rest) ∧
+      Signcrypt.sealWith P bs sender (Rand.shuffle js (boxes ++ syms)) ephSec pk pt = .ok m :=
+  sc_sealRand_draws P bs sender boxes syms eph src pt m rest h
+
+/-- a detached signature header's nonce is the 16 bytes of one full read -/
+theorem C18_sign_detached_draws (P : Prims) (v : Version) (signer : Bytes) (src : Rand.Source)
+    (msg m : Bytes) (rest : Rand.Source)
+    (h : Sign.detachedRand P v signer src msg = .ok (m, rest)) :
+    ∃ n, Rand.readFull Sign.sigNonceLen src = some (n, rest) ∧ Sign.detachedWith P v signer n msg = .ok m :=
+  detachedRand_draws P v signer src msg m rest h
+
+theorem C18_sig_nonce_len : Sign.sigNonceLen = 16 := rfl
+
 /-- **Fail closed.** An error before `n` bytes are in — alone, or with a short
     slice — makes the full read fail; so does a source that ends early. -/
 theorem C18_read_fail_closed (n : Nat) (src : Rand.Source) (k : Nat) (hk : k < src.length)
@@ -64,13 +92,189 @@ theorem C18_read_short (n : Nat) (src : Rand.Source)
     (hshort : (src.map (·.data.length)).sum < n) : Rand.readFull n src = none :=
   readFull_short n src hshort
 
-/-- end to end: when the payload-key read fails, `Seal` returns an error and no
-    message at all -/
+/-- **Fail closed, `Seal`, general.**  For every recipient list and every
+    ephemeral-key source: if the shuffle draws fail; or the ephemeral key cannot
+    be obtained (the creator fails, or — when it is drawn from the source — its
+    32-byte read fails); or the payload-key read (the next 32-byte read) fails:
+    `Seal` returns an error, hence no message bytes at all.  The error is the
+    source's (`ioError`) unless the arguments were refused before any read. -/
 theorem C18_seal_fail_closed (P : Prims) (bs : Nat) (v : Version) (sender : Option Bytes)
+    (rs : List Encrypt.Recipient) (eph : Encrypt.EphSource) (src : Rand.Source) (pt : Bytes)
+    (hfail :
+      (∃ e, Encrypt.shuffleDraws (rs.length - 1) src (src.length + 1) = .error e) ∨
+      (∃ js src1, Encrypt.shuffleDraws (rs.length - 1) src (src.length + 1) = .ok (js, src1) ∧
+        match eph with
+        | .fails => True
+        | .given _ => Rand.readFull 32 src1 = none
+        | .fromRand => Rand.readFull 32 src1 = none ∨
+            ∃ s src2, Rand.readFull 32 src1 = some (s, src2) ∧ Rand.readFull 32 src2 = none)) :
+    ∃ e, Encrypt.sealRand P bs v sender rs eph src pt = .error e ∧
+      (knownVersion v = true → Encrypt.checkReceivers rs = .ok () → e = .ioError) :=
+  sealRand_fail_closed_gen P bs v sender rs eph src pt hfail
+
+/-- the hypothesis of `C18_seal_fail_closed` is exactly "the randomness failed":
+    a successful `Seal` never satisfies it -/
+theorem C18_seal_ok_no_failure (P : Prims) (bs : Nat) (v : Version) (sender : Option Bytes)
+    (rs : List Encrypt.Recipient) (eph : Encrypt.EphSource) (src : Rand.Source) (pt m : Bytes) (rest : Rand.Source)
+    (h : Encrypt.sealRand P bs v sender rs eph src pt = .ok (m, rest)) :
+    ¬ ((∃ e, Encrypt.shuffleDraws (rs.length - 1) src (src.length + 1) = .error e) ∨
+      (∃ js src1, Encrypt.shuffleDraws (rs.length - 1) src (src.length + 1) = .ok (js, src1) ∧
+        match (generalizing := false) eph with
+        | .fails => True
+        | .given _ => Rand.readFull 32 src1 = none
+        | .fromRand => Rand.readFull 32 src1 = none ∨
+            ∃ s src2, Rand.readFull 32 src1 = some (s, src2) ∧ Rand.readFull 32 src2 = none)) :=
+  sealRand_ok_not_fails P bs v sender rs eph src pt m rest h
+
+/-- the former special case (one recipient, caller-supplied ephemeral key,
+    failing payload-key read), as an instance of the general theorem -/
+theorem C18_seal_fail_closed_single (P : Prims) (bs : Nat) (v : Version) (sender : Option Bytes)
     (rs : List Encrypt.Recipient) (s : Bytes) (src : Rand.Source) (pt : Bytes)
     (hsingle : rs.length = 1) (hfail : Rand.readFull 32 src = none) :
-    ∃ e, Encrypt.sealRand P bs v sender rs (.given s) src pt = .error e :=
-  sealRand_fail_closed P bs v sender rs s src pt hsingle hfail
+    ∃ e, Encrypt.sealRand P bs v sender rs (.given s) src pt = .error e := by
+  obtain ⟨e, he, _⟩ := C18_seal_fail_closed P bs v sender rs (.given s) src pt
+    (Or.inr ⟨[], src, by rw [hsingle]; rfl, hfail⟩)
+  exact ⟨e, he⟩
+
+/-- whatever the recipients and the ephemeral-key source: a source that
+    delivers fewer than 32 bytes in total makes `Seal` fail -/
+theorem C18_seal_short_source (P : Prims) (bs : Nat) (v : Version) (sender : Option Bytes)
+    (rs : List Encrypt.Recipient) (eph : Encrypt.EphSource) (src : Rand.Source) (pt : Bytes)
+    (hshort : (src.map (·.data.length)).sum < 32) :
+    ∃ e, Encrypt.sealRand P bs v sender rs eph src pt = .error e :=
+  sealRand_short_source P bs v sender rs eph src pt hshort
+
+/-- **Fail closed, `SigncryptSeal`, general** (same three failure points) -/
+theorem C18_signcrypt_seal_fail_closed (P : Prims) (bs : Nat) (sender : Option Bytes)
+    (boxes syms : List Signcrypt.Recipient) (eph : Encrypt.EphSource) (src : Rand.Source) (pt : Bytes)
+    (hfail :
+      (∃ e, Encrypt.shuffleDraws ((boxes ++ syms).length - 1) src (src.length + 1) = .error e) ∨
+      (∃ js src1, Encrypt.shuffleDraws ((boxes ++ syms).length - 1) src (src.length + 1) = .ok (js, src1) ∧
+        match eph with
+        | .fails => True
+        | .given _ => Rand.readFull 32 src1 = none
+        | .fromRand => Rand.readFull 32 src1 = none ∨
+            ∃ s src2, Rand.readFull 32 src1 = some (s, src2) ∧ Rand.readFull 32 src2 = none)) :
+    ∃ e, Signcrypt.sealRand P bs sender boxes syms eph src pt = .error e ∧
+      (Signcrypt.checkReceivers boxes syms = .ok () → e = .ioError) :=
+  sc_sealRand_fail_closed_gen P bs sender boxes syms eph src pt hfail
+
+/-- **Fail closed, signatures**: a failing 16-byte nonce read makes `Sign` and
+    `SignDetached` return an error (the source's, for a known version) -/
+theorem C18_sign_fail_closed (P : Prims) (bs : Nat) (v : Version) (signer : Bytes) (src : Rand.Source) (msg : Bytes)
+    (hfail : Rand.readFull 16 src = none) :
+    ∃ e, Sign.attachedRand P bs v signer src msg = .error e ∧ (knownVersion v = true → e = .ioError) :=
+  attachedRand_fail_closed P bs v signer src msg hfail
+
+theorem C18_sign_detached_fail_closed (P : Prims) (v : Version) (signer : Bytes) (src : Rand.Source) (msg : Bytes)
+    (hfail : Rand.readFull 16 src = none) :
+    ∃ e, Sign.detachedRand P v signer src msg = .error e ∧ (knownVersion v = true → e = .ioError) :=
+  detachedRand_fail_closed P v signer src msg hfail
+
+/-! ## histories: which reads become which secret, and consecutive operations
+
+  `segBytes src a b n` — the first `n` bytes delivered by reads `a … b-1` of the
+  source.  `SecretsAt n eph src o a b c js ephSec pk` — an operation started at
+  read `o`: the shuffle draws `js` are `Rand.drawsFrom` of the 32-bit words of
+  reads `[o, a)` and depend on nothing else, the ephemeral secret (when drawn
+  from the source) is the 32 bytes of reads `[a, b)`, the payload key the 32
+  bytes of reads `[b, c)`; `o ≤ a ≤ b < c ≤ |src|`. -/
+
+theorem C18_segBytes_def (src : Rand.Source) (a b n : Nat) :
+    segBytes src a b n = ((((src.drop a).take (b - a)).map (·.data)).flatten).take n := rfl
+
+theorem C18_secretsAt_def (n : Nat) (eph : Encrypt.EphSource) (src : Rand.Source) (o a b c : Nat)
+    (js : List Nat) (ephSec pk : Bytes) :
+    SecretsAt n eph src o a b c js ephSec pk ↔
+      (o ≤ a ∧ a ≤ b ∧ b < c ∧ c ≤ src.length ∧
+       (∃ cw ws, readWords cw (src.drop o) = some (ws, src.drop a) ∧
+          (∀ tail, readWords cw ((src.drop o).take (a - o) ++ tail) = some (ws, tail)) ∧
+          Rand.drawsFrom (n - 1) ws = some (js, []) ∧ Rand.ValidDraws (n - 1) js) ∧
+       (match eph with
+        | .given s => ephSec = s ∧ b = a
+        | .fromRand => a < b ∧ ephSec = segBytes src a b 32 ∧ ephSec.length = 32
+        | .fails => False) ∧
+       pk = segBytes src b c 32 ∧ pk.length = 32) := by
+  cases eph <;> exact Iff.rfl
+
+/-- `readWords c`: `c` successive full reads of 4 bytes, each taken as a
+    big-endian word (`csprngUint32`) -/
+theorem C18_readWords_def (c : Nat) (src : Rand.Source) :
+    readWords 0 src = some ([], src) ∧
+    readWords (c + 1) src =
+      (match Rand.readFull 4 src with
+       | none => none
+       | some (b, src') =>
+         match readWords c src' with
+         | none => none
+         | some (ws, rest) => some (natOfBytes b :: ws, rest)) :=
+  ⟨rfl, rfl⟩
+
+/-- `Seal` run on `src`: its secrets are the bytes of consecutive ranges of
+    reads `[0,a) [a,b) [b,c)`, and the unread rest is `src.drop c` -/
+theorem C18_seal_segments (P : Prims) (bs : Nat) (v : Version) (sender : Option Bytes)
+    (rs : List Encrypt.Recipient) (eph : Encrypt.EphSource) (src : Rand.Source) (pt m : Bytes) (rest : Rand.Source)
+    (h : Encrypt.sealRand P bs v sender rs eph src pt = .ok (m, rest)) :
+    ∃ a b c js ephSec pk, rest = src.drop c ∧ SecretsAt rs.length eph src 0 a b c js ephSec pk ∧
+      Encrypt.sealWith P bs v sender (Rand.shuffle js rs) ephSec pk pt = .ok m :=
+  sealRand_segments P bs v sender rs eph src pt m rest h
+
+theorem C18_signcrypt_seal_segments (P : Prims) (bs : Nat) (sender : Option Bytes)
+    (boxes syms : List Signcrypt.Recipient) (eph : Encrypt.EphSource) (src : Rand.Source) (pt m : Bytes)
+    (rest : Rand.Source)
+    (h : Signcrypt.sealRand P bs sender boxes syms eph src pt = .ok (m, rest)) :
+    ∃ a b c js ephSec pk, rest = src.drop c ∧
+      SecretsAt (boxes ++ syms).length eph src 0 a b c js ephSec pk ∧
+      Signcrypt.sealWith P bs sender (Rand.shuffle js (boxes ++ syms)) ephSec pk pt = .ok m :=
+  sc_sealRand_segments P bs sender boxes syms eph src pt m rest h
+
+/-- signatures: the nonce is the 16 bytes of reads `[0, c)`, `c ≥ 1` -/
+theorem C18_sign_segment (P : Prims) (bs : Nat) (v : Version) (signer : Bytes) (src : Rand.Source)
+    (msg m : Bytes) (rest : Rand.Source)
+    (h : Sign.attachedRand P bs v signer src msg = .ok (m, rest)) :
+    ∃ c n, 0 < c ∧ c ≤ src.length ∧ rest = src.drop c ∧ n = segBytes src 0 c 16 ∧ n.length = 16 ∧
+      Sign.attachedWith P bs v signer n msg = .ok m :=
+  attachedRand_segment P bs v signer src msg m rest h
+
+theorem C18_sign_detached_segment (P : Prims) (v : Version) (signer : Bytes) (src : Rand.Source)
+    (msg m : Bytes) (rest : Rand.Source)
+    (h : Sign.detachedRand P v signer src msg = .ok (m, rest)) :
+    ∃ c n, 0 < c ∧ c ≤ src.length ∧ rest = src.drop c ∧ n = segBytes src 0 c 16 ∧ n.length = 16 ∧
+      Sign.detachedWith P v signer n msg = .ok m :=
+  detachedRand_segment P v signer src msg m rest h
+
+/-- **Two consecutive operations.**  A second `Seal` (any arguments) run on the
+    source the first one returned consumes the *next* reads of the original
+    source: the first call's secrets come from reads `[0, c₁)`, the second
+    call's from reads `[c₁, c₂)` — with `0 ≤ a₁ ≤ b₁ < c₁ ≤ a₂ ≤ b₂ < c₂ ≤ |src|`
+    (part of `SecretsAt`), i.e. disjoint consecutive segments.  Secrets of
+    different operations therefore repeat only if the source repeats. -/
+theorem C18_seal_twice (P : Prims)
+    (bs₁ : Nat) (v₁ : Version) (sender₁ : Option Bytes) (rs₁ : List Encrypt.Recipient) (eph₁ : Encrypt.EphSource) (pt₁ m₁ : Bytes)
+    (bs₂ : Nat) (v₂ : Version) (sender₂ : Option Bytes) (rs₂ : List Encrypt.Recipient) (eph₂ : Encrypt.EphSource) (pt₂ m₂ : Bytes)
+    (src rest₁ rest₂ : Rand.Source)
+    (h₁ : Encrypt.sealRand P bs₁ v₁ sender₁ rs₁ eph₁ src pt₁ = .ok (m₁, rest₁))
+    (h₂ : Encrypt.sealRand P bs₂ v₂ sender₂ rs₂ eph₂ rest₁ pt₂ = .ok (m₂, rest₂)) :
+    ∃ a₁ b₁ c₁ a₂ b₂ c₂ js₁ e₁ k₁ js₂ e₂ k₂,
+      rest₁ = src.drop c₁ ∧ rest₂ = src.drop c₂ ∧
+      SecretsAt rs₁.length eph₁ src 0 a₁ b₁ c₁ js₁ e₁ k₁ ∧
+      SecretsAt rs₂.length eph₂ src c₁ a₂ b₂ c₂ js₂ e₂ k₂ ∧
+      Encrypt.sealWith P bs₁ v₁ sender₁ (Rand.shuffle js₁ rs₁) e₁ k₁ pt₁ = .ok m₁ ∧
+      Encrypt.sealWith P bs₂ v₂ sender₂ (Rand.shuffle js₂ rs₂) e₂ k₂ pt₂ = .ok m₂ :=
+  sealRand_twice P bs₁ v₁ sender₁ rs₁ eph₁ pt₁ m₁ bs₂ v₂ sender₂ rs₂ eph₂ pt₂ m₂ src rest₁ rest₂ h₁ h₂
+
+/-- in particular the two payload keys are the first 32 bytes of two disjoint
+    ranges of reads `[b₁, c₁)` and `[b₂, c₂)`, `c₁ ≤ b₂` -/
+theorem C18_seal_twice_keys (P : Prims)
+    (bs₁ : Nat) (v₁ : Version) (sender₁ : Option Bytes) (rs₁ : List Encrypt.Recipient) (eph₁ : Encrypt.EphSource) (pt₁ m₁ : Bytes)
+    (bs₂ : Nat) (v₂ : Version) (sender₂ : Option Bytes) (rs₂ : List Encrypt.Recipient) (eph₂ : Encrypt.EphSource) (pt₂ m₂ : Bytes)
+    (src rest₁ rest₂ : Rand.Source)
+    (h₁ : Encrypt.sealRand P bs₁ v₁ sender₁ rs₁ eph₁ src pt₁ = .ok (m₁, rest₁))
+    (h₂ : Encrypt.sealRand P bs₂ v₂ sender₂ rs₂ eph₂ rest₁ pt₂ = .ok (m₂, rest₂)) :
+    ∃ b₁ c₁ b₂ c₂ js₁ e₁ js₂ e₂, b₁ < c₁ ∧ c₁ ≤ b₂ ∧ b₂ < c₂ ∧ c₂ ≤ src.length ∧
+      Encrypt.sealWith P bs₁ v₁ sender₁ (Rand.shuffle js₁ rs₁) e₁ (segBytes src b₁ c₁ 32) pt₁ = .ok m₁ ∧
+      Encrypt.sealWith P bs₂ v₂ sender₂ (Rand.shuffle js₂ rs₂) e₂ (segBytes src b₂ c₂ 32) pt₂ = .ok m₂ :=
+  sealRand_twice_keys P bs₁ v₁ sender₁ rs₁ eph₁ pt₁ m₁ bs₂ v₂ sender₂ rs₂ eph₂ pt₂ m₂ src rest₁ rest₂ h₁ h₂
 
 /-! ## within one message no two chunks are protected under the same key and nonce -/
 
@@ -102,9 +306,32 @@ theorem C18_overflow_guard (P : Prims) (v : Version) (pk hh : Bytes) (mks : List
     Encrypt.blockStruct P v pk hh mks i c f = .error .packetOverflow :=
   block_overflow_guard P v pk hh mks i c f hi
 
+/-- the same guard in `signcryptBlock` -/
+theorem C18_signcrypt_overflow_guard (P : Prims) (sender : Option Bytes) (pk hh : Bytes) (i : Nat)
+    (c : Bytes) (f : Bool) (hi : 2 ^ 64 - 1 ≤ i) :
+    Signcrypt.blockStruct P sender pk hh i c f = .error .packetOverflow :=
+  sc_block_overflow_guard P sender pk hh i c f hi
+
+/-- and below the guard the counter is encoded injectively (`be64` of a number
+    `< 2^64`): `blockNumberOK i` means `i < 2^64 - 1` -/
+theorem C18_block_number_ok (i : Nat) : blockNumberOK i = true ↔ i < 2 ^ 64 - 1 := by
+  unfold blockNumberOK
+  exact decide_eq_true_iff
+
 /-! ## non-vacuity -/
 example : Rand.readFull 4 [⟨[1, 2], false⟩, ⟨[3, 4, 5], false⟩] = some ([1, 2, 3, 4], []) := by decide
 example : Rand.readFull 4 [⟨[1, 2], true⟩, ⟨[3, 4], false⟩] = none := by decide
 example : Rand.readFull 4 [⟨[1, 2], false⟩] = none := by decide
+
+/-- two recipients, ephemeral key from the source, and a source that ends after
+    the shuffle draw: `Seal` fails with the source's error -/
+example : Encrypt.sealRand Toy.prims 4 v2 none [⟨[1], false⟩, ⟨[2], true⟩] .fromRand [⟨[0, 0, 0, 1], false⟩] [7]
+    = .error .ioError := by decide
+
+/-- and succeeds on a sufficient source, leaving the unread reads (so the
+    hypotheses of `C18_seal_segments` / `C18_seal_twice` are satisfiable) -/
+example : ∃ m, Encrypt.sealRand Toy.prims 4 v2 none [⟨[1], false⟩, ⟨[2], true⟩] (.given [3])
+    [⟨[0, 0, 0, 1], false⟩, ⟨List.replicate 32 6, false⟩, ⟨[128, 0, 0, 1], false⟩, ⟨List.replicate 32 9, false⟩] [7]
+    = .ok (m, [⟨[128, 0, 0, 1], false⟩, ⟨List.replicate 32 9, false⟩]) := ⟨_, by rfl⟩
 
 end Saltpack.Props.C18
